@@ -181,7 +181,7 @@ class C19(Check):
         from pymoode.operators import dex
         from pymoode.operators.dem import DEM, bounce_back, rand_init
         from scipy import stats
-        n_tests = 200; alpha = 1e-9 / n_tests
+        n_tests = 220; alpha = 1e-9 / n_tests
         rs = np.random.RandomState(12345 + self.seed); st = np.random.get_state(); np.random.seed(777 + self.seed)
         n_cases = 0
         try:
@@ -259,6 +259,17 @@ class C19(Check):
             r = abs(np.corrcoef(f1, f2)[0, 1])
             if r > 8 / math.sqrt(n):
                 return fail("dither-independent", {"corr": float(r)}, "the scale factors of two difference vectors of one mutant are not drawn independently (correlation %.3f)" % r)
+            # dither and jitter together: the effective factor F*(1 + gamma*(u - 0.5)), F uniform over the range, against an independent simulation
+            for lo, hi, gamma in ((0.6, 0.6, 0.5), (0.4, 0.8, 1.0), (0.5, 1.0, 0.3), (0.0, 1.0, 1.9), (0.9, 1.0, 0.5)):
+                n_cases += 1
+                n = 100000; X = np.zeros((3, n, 1)); X[1] = 1.0
+                V = DEM(F=(lo, hi), gamma=gamma, n_diffs=1).de_mutation(X.copy()); V = V[0] if isinstance(V, tuple) else V
+                f = np.asarray(V, dtype=float).ravel()
+                ref = (lo + rs.random_sample(n) * (hi - lo)) * (1 + gamma * (rs.random_sample(n) - 0.5))
+                pv = stats.ks_2samp(f, ref).pvalue
+                if pv < alpha:
+                    return fail("dither-jitter", {"range": [lo, hi], "gamma": gamma}, "with F dithered over [%g, %g] and gamma=%g the effective scale factors do not follow F*(1+gamma*(u-0.5)) (two-sample KS p=%.1e; share above the range: %.4f, simulated %.4f)" % (
+                        lo, hi, gamma, pv, float((f > hi).mean()), float((ref > hi).mean())))
             # repairs: bounce-back / rand-init uniform on their segment
             for nm, f in (("bounce-back", bounce_back), ("rand-init", rand_init)):
                 for side in ("lower", "upper"):
